@@ -63,12 +63,13 @@ func reg(p *propCfg) {
 }
 
 func init() {
+	reg(&propCfg{ID: "C13", Test: "TestC13", Quick: tierCfg{150, 8}, Thorough: tierCfg{3000, 16}, Race: true, Fatal: true, Timeout: 8 * time.Minute})
 	reg(&propCfg{ID: "C14", Test: "TestC14", Quick: tierCfg{3000, 4}, Thorough: tierCfg{60000, 16}})
 	reg(&propCfg{ID: "C19", Test: "TestC19", Quick: tierCfg{6000, 4}, Thorough: tierCfg{100000, 16}})
 	reg(&propCfg{ID: "C11", Test: "TestC11", Quick: tierCfg{10000, 4}, Thorough: tierCfg{300000, 16}})
 	reg(&propCfg{ID: "C10", Test: "TestC10", Quick: tierCfg{4000, 6}, Thorough: tierCfg{60000, 16}, Fatal: true})
 	reg(&propCfg{ID: "C20", Test: "TestC20", Quick: tierCfg{700, 8}, Thorough: tierCfg{15000, 16}})
-	reg(&propCfg{ID: "C16", Test: "TestC16", Quick: tierCfg{5000, 4}, Thorough: tierCfg{100000, 16}})
+	reg(&propCfg{ID: "C16", Test: "TestC16", Quick: tierCfg{5000, 4}, Thorough: tierCfg{100000, 16}, Fatal: true})
 	reg(&propCfg{ID: "C09", Test: "TestC09", Quick: tierCfg{10000, 4}, Thorough: tierCfg{150000, 16}})
 	reg(&propCfg{ID: "C04", Test: "TestC04", Quick: tierCfg{10000, 4}, Thorough: tierCfg{150000, 16}})
 	reg(&propCfg{ID: "C06", Test: "TestC06", Quick: tierCfg{4000, 4}, Thorough: tierCfg{100000, 16}})
